@@ -107,6 +107,13 @@ class C09(CheckBase):
             for i, (t, v) in enumerate(T):
                 out.append(("drop-%s" % C.CKA_NAMES.get(t, hex(t)), T[:i] + T[i + 1:]))
         out.append(("oversize-64-entries", T + [(C.CKA_LABEL, b"x%d" % i) for i in range(64)]))
+        # every byte-string entry named TWICE (another value first) before the entry that is rejected: an undo log that keeps one saved value per attribute
+        # must restore the value from before the call, not the intermediate one
+        twice = [(t, v + b"-first-value") for t, v in T if isinstance(v, bytes) and t in (C.CKA_LABEL, C.CKA_ID, C.CKA_APPLICATION)]
+        if twice:
+            for name, ent in self.BAD[:3] + self.BAD[-3:]:
+                out.append(("repeated-entries+%s@last" % name, twice + T + [ent]))
+                out.append(("repeated-entries+%s@middle" % name, twice + T[:1] + twice + [ent] + T[1:]))
         return out
 
     # ---- the case list: (call, target description, breakage, request line)
